@@ -3,7 +3,7 @@
     yields the empty string) and 5e2d7b7 (the output is spliced as text, not as a replacement template). *)
 From Coq Require Import List NArith ZArith.
 From Cicada Require Import Base.Chars Base.Tag Model.Expand Model.ExpandRef Model.SubstVariant
-  Proofs.ExpandBasics Proofs.SubstProofs Proofs.SubstWitness Proofs.SubstVariantProofs Proofs.ExpandInert Proofs.SubstOrder.
+  Proofs.ExpandBasics Proofs.SubstProofs Proofs.SubstWitness Proofs.SubstVariantProofs Proofs.ExpandInert Proofs.SubstOrder Model.SubstVariant2 Proofs.SubstVariant2Proofs.
 From Cicada Require Model.Tokenizer.
 Import ListNotations.
 Local Open Scope N_scope.
@@ -41,6 +41,31 @@ Theorem C11_splices : forall W head cmd tail f,
   dollar_loop (S (S f)) W (head ++ [36; 40] ++ cmd ++ [41] ++ tail) []
   = Ok (Some (head ++ trim (oracle_out W cmd) ++ tail), [cmd]).
 Proof. exact dollar_loop_splices. Qed.
+
+(** The same for the WHOLE word: the text before the substitution may hold dollars (none directly followed by
+    an open paren), the text after it may go on over further lines.  The splice is the leftmost-match REPLACE of
+    an unanchored pattern whose head group cannot hold a dollar and whose tail group stops at a newline: what lies
+    outside the match is kept -- before ++ output ++ tail ++ post, nothing dropped. *)
+Theorem C11_splices_whole_word : forall W (before cmd tail post : str) f,
+  has_dollar_paren before = false ->
+  cmd <> [] -> ~ In 41 cmd -> ~ In 10 cmd -> ~ In 10 tail -> ~ In 41 tail -> (post = [] \/ exists r, post = 10 :: r) ->
+  (~ In 61 (before ++ [36; 40] ++ cmd ++ [41] ++ tail ++ post) \/ ~ In 39 (before ++ [36; 40] ++ cmd ++ [41] ++ tail ++ post)) ->
+  has_dollar_paren (before ++ trim (oracle_out W cmd) ++ tail ++ post) = false ->
+  dollar_loop (S (S f)) W (before ++ [36; 40] ++ cmd ++ [41] ++ tail ++ post) []
+  = Ok (Some (before ++ trim (oracle_out W cmd) ++ tail ++ post), [cmd]).
+Proof. exact dollar_loop_splices_gen. Qed.
+(** non-vacuity:  US$$(x)<nl>rest  with the runner answering 5 *)
+Example C11_whole_word_example :
+  dollar_loop 2 (world_of [] [([120], Some [53; 10])]) [85; 83; 36; 36; 40; 120; 41; 33; 10; 114] []
+  = Ok (Some [85; 83; 36; 53; 33; 10; 114], [[120]]).
+Proof. vm_compute. reflexivity. Qed.
+
+(** The token loop of the dollar pass is modelled as written (hand-counted index over ALL tokens, write-back by
+    index) and proved equal to the per-token recursion. *)
+Theorem C11_index_buffer : forall fuel W toks log,
+  subst_dollar fuel W toks log
+  = res_map (fun x => (match fst x with Some t => t | None => toks end, snd x)) (dollar_pass fuel W toks log).
+Proof. exact subst_dollar_eq. Qed.
 
 (** ... in the property's words (trailing newlines only) whenever trimming and stripping coincide. *)
 Definition Known_C11 (W : World) (head cmd tail : str) : Prop :=
@@ -107,6 +132,24 @@ Theorem C11_variant_dq : forall W head cmd tail f,
   = Ok (Some (head ++ strip_nl (oracle_out W cmd) ++ tail), [cmd]).
 Proof. exact dollar_loop_v_dq. Qed.
 
+(** About two more PROPOSED repairs (Model/SubstVariant2.v; notes/C11-fix-4.patch, notes/C11-fix-5.patch).
+    fix-4: an embedded backquote command that does not plan yields the empty string -- no stale output. *)
+Theorem C11_variant_backquote : forall W h1 c1 h2 c2 t f,
+  ~ In 96 h1 -> ~ In 96 c1 -> c1 <> [] -> ~ In 96 h2 -> ~ In 10 h2 -> ~ In 96 c2 -> c2 <> [] -> ~ In 10 c2 -> ~ In 96 t -> ~ In 10 t ->
+  dot_loop_v (S (S (S f))) W (h1 ++ 96 :: c1 ++ 96 :: h2 ++ 96 :: c2 ++ 96 :: t) [] []
+  = Ok (h1 ++ trim (out_of W c1) ++ h2 ++ trim (out_of W c2) ++ t, [c1; c2]).
+Proof. exact dot_loop_v_two. Qed.
+(** fix-5 (balanced-parenthesis scan): two substitutions in one word are two runs, spliced in place. *)
+Theorem C11_two_substitutions : forall W (pre a mid b post : str) f,
+  ~ In 36 pre -> ~ In 36 mid -> a <> [] -> b <> [] -> ~ In 40 a -> ~ In 41 a -> ~ In 40 b -> ~ In 41 b ->
+  ~ In 36 (trim (out_of W a)) ->
+  ((~ In 61 (pre ++ 36 :: 40 :: a ++ 41 :: mid ++ 36 :: 40 :: b ++ 41 :: post) /\ ~ In 61 (trim (out_of W a))) \/
+   (~ In 39 (pre ++ 36 :: 40 :: a ++ 41 :: mid ++ 36 :: 40 :: b ++ 41 :: post) /\ ~ In 39 (trim (out_of W a)))) ->
+  has_dollar_paren (pre ++ trim (out_of W a) ++ mid ++ trim (out_of W b) ++ post) = false ->
+  dollar_loop_b (S (S (S f))) W (pre ++ 36 :: 40 :: a ++ 41 :: mid ++ 36 :: 40 :: b ++ 41 :: post) []
+  = Ok (Some (pre ++ trim (out_of W a) ++ mid ++ trim (out_of W b) ++ post), [a; b]).
+Proof. exact two_substitutions. Qed.
+
 Check C11_refuted : ~ C11_full.
 Check C11_splices : forall W head cmd tail f,
   ~ In 36 head -> ~ In 10 tail -> ~ In 41 tail -> cmd <> [] -> ~ In 41 cmd -> ~ In 10 cmd ->
@@ -126,9 +169,13 @@ Proof. split; [exact word_ok_x | vm_compute; reflexivity]. Qed.
 Print Assumptions C11_refuted.
 Print Assumptions C11_refuted_whitespace.
 Print Assumptions C11_splices.
+Print Assumptions C11_splices_whole_word.
+Print Assumptions C11_index_buffer.
 Print Assumptions C11_partial.
 Print Assumptions C11_unplannable.
 Print Assumptions C11_terminates.
 Print Assumptions C11_backquote.
 Print Assumptions C11_output_not_globbed.
 Print Assumptions C11_variant_dq.
+Print Assumptions C11_variant_backquote.
+Print Assumptions C11_two_substitutions.
